@@ -15,6 +15,7 @@
 package admin
 
 import (
+	"context"
 	"fmt"
 	"net"
 	"net/http"
@@ -93,9 +94,14 @@ func (s *Server) tryListen(addr string, portInUseRetry bool) (net.Listener, erro
 
 // Stop stop the server
 func (s *Server) Stop() {
-	switch err := s.hs.Shutdown(nil); err {
+	// NOTE: Shutdown waits for the connections to become idle and needs a real
+	// context for that (a nil one panics as soon as there is a busy connection).
+	ctx, cancel := context.WithTimeout(context.Background(), time.Second*3)
+	defer cancel()
+	switch err := s.hs.Shutdown(ctx); err {
 	case nil:
 	default:
-		logger.Warnf("Failed to stop HTTP server, error: %s", err)
+		logger.Warnf("Failed to stop HTTP server gracefully, error: %s", err)
+		s.hs.Close()
 	}
 }
